@@ -474,6 +474,35 @@ def part_publish_faults(ctx):
     return p
 
 
+def part_ack_faults(ctx):
+    """C03: an acknowledgement hit by a storage fault either reports the failure or is durable: an Acknowledge
+    (or a stream's ack) answered OK whose deliveries are still unacknowledged comes back later"""
+    p = Part("ack-under-fault")
+    d = os.path.join(ctx["work"], "faultenum_c03")
+    rc, out = harness(["fault-enum", "-out", d, "-only", "ack,stream-ack,stream-ack-and-nack"], timeout=1500)
+    if rc != 0:
+        p.violation("harness-failed", "fault enumeration failed: " + out[-1500:], dict(log=out[-3000:]), found_input=False)
+        return p
+    info = json.load(open(os.path.join(d, "faultenum.json")))
+    res = info["results"]
+    p.evaluations = len(res)
+    p.traces = len(res)
+    p.nontrivial = sum(1 for r in res if r["errored"])
+    p.samples = res[:2]
+    p.info = dict(statements=info["statements_per_operation"])
+    seen = set()
+    for r in res:
+        if "cancellation not delivered" in r["call"]:
+            continue
+        if not r["errored"] and r["unchanged"]:
+            key = "accepted-ack-not-stored"
+            if key not in seen:
+                seen.add(key)
+                p.violation(key, "%s with statement %d/%d (%s, %s) failing: the acknowledgement was answered OK, and no delivery was marked acknowledged" %
+                            (r["scenario"], r["k"], r["of"], r["call"], r["mode"]), dict(kind="fault-enum", result=r))
+    return p
+
+
 def part_services_fault(ctx):
     """the prune service's own transaction handling under a storage fault on its SECOND run"""
     p = Part("service-faults")
@@ -1342,7 +1371,7 @@ CHECKS = {
     "C03": dict(
         props=["C03", "Tie"],
         parts=[engine_part("delivery", 48, 600, 45, claim_c03, ["ack_effective", "ack_noop", "modack_effective", "nack_rescheduled"], monitors=("acked-redelivered",)),
-               stream_part(STREAM_C03), part_adapter,
+               stream_part(STREAM_C03), part_adapter, part_ack_faults,
                engine_part(("bulk520", "bulk1100"), 1, 1, 30, claim_c03, ["ack_effective"])],
         parallel=True,
         rule="[+ stream part: ids acknowledged on a stream / outside it / on a second stream of a reconnecting client are completed in the database; bulk profile: Acknowledge calls with exactly 500 / 499 / the remaining ids of 520 (thorough 1100) leased deliveries] same engine; owned projection: Acknowledge / ModifyAckDeadline / stream ack+nack steps (duplicate, stale, foreign, garbage ids; nack and deadline changes after ack); "
